@@ -150,7 +150,7 @@ def dep_model(rng, isa, mem=True, bumps=True):
             if isa == "x86":
                 add("ld%da" % i, [{"kind": "mem", "role": "s"}, dict(reg_d)], has_isa=rng.random() < 0.5)
                 add("st%da" % i, [dict(reg_s), {"kind": "mem", "role": "d"}], has_isa=rng.random() < 0.5)
-                add("rm%da" % i, [dict(reg_s), {"kind": "mem", "role": "sd"}])
+                add("rm%da" % i, [dict(reg_s), {"kind": "mem", "role": "sd"}], hidden=[(f, "d") for f in rng.sample(FLAGS[isa], 2)])
                 # composed load: the model only has the register form (separate load node in the graph)
                 add("lc%da" % i, [{"kind": "mem", "role": "s"}, dict(reg_d, cls_pat=pat)], has_isa=rng.random() < 0.5, composed=True,
                     arch_ops=[_regpat(isa, pat), _regpat(isa, pat)])
@@ -569,6 +569,9 @@ def curated_vocab(isa):
         f("movq", [{"kind": "mem", "role": "s"}, g("d", **w)])
         f("movq", [g("s", **w), {"kind": "mem", "role": "d"}])
         f("leaq", [{"kind": "mem", "role": "a"}, g("d", **w)])
+        f("addq", [g("s", **w), {"kind": "mem", "role": "sd"}])
+        f("subq", [g("s", **w), {"kind": "mem", "role": "sd"}])
+        f("addq", [i, {"kind": "mem", "role": "sd"}])
     else:
         w = dict(cls_pat="x")
         f("add", [g("d", **w), g("s", **w), g("s", **w)])
